@@ -462,6 +462,10 @@ class DynamicSlicer:
         # dominated by the loops to which they are connected, and this is not necessarily
         # reflected in the CDG.
         dominated_nodes = cdg.get_descendants(node)
+        if cdg.graph.has_edge(node, node):
+            # The descendants never contain the node itself: a loop whose body is a single
+            # basic block is control dependent on its own test of the previous iteration.
+            dominated_nodes.add(node)
         dominator_loops = cdg.get_dominator_loops(node)
         dominated_instr_ctrl_deps = {
             instr
